@@ -4,7 +4,11 @@
 
   A *root* is a natural number: `3*slot + d` for the receiver (slot 0) or the i-th parameter
   (slot i) of the function — d = 0 the object it refers to, 1 the objects that one holds
-  references to, 2 anything deeper — and `1000 + 3*g + d` for package variable `g`.
+  references to, 2 anything deeper — and `1000 + 3*g + d` for package variable `g` (global 0 is the
+  *unknown* global: memory the analysis knows nothing about — what an unknown callee may write, what a
+  function literal captures).  A function literal is a table entry of its own (`encl$N`), the callee
+  of the dynamic calls the extractor resolved.  `PkgVar`: one package-level variable and the functions
+  that syntactically write it.
 -/
 namespace Ytk.EffectT
 
@@ -28,8 +32,43 @@ structure FnSummary where
   callbacks : List String
   /-- calls handled by the conservative rule (informational) -/
   conservative : List String
+  /-- the entries of `conservative` whose callee is unknown to the analysis — a function value it could not
+      enumerate ("dynamic:…"), a call leaving the analysed packages that is not on the allow-list ("external:…"),
+      a function without body, an interface method without implementation, range-over-func; each is charged with
+      a write to the unknown global (root 1000) and to everything reachable from its arguments.  (The remaining
+      entries, "shallow:…", are known library calls that write only the object their first argument refers to.) -/
+  unknownCalls : List String := []
+  /-- dynamic calls (calls of a function VALUE) whose possible callees the extractor enumerated, with how; they
+      are ordinary entries of `calls` (informational) -/
+  resolvedCalls : List String := []
   deriving Repr, Inhabited
 
 def isGlobal (r : Root) : Bool := r ≥ 1000
+
+/-- the package variable (index into `globalNames`) a root belongs to, if it is a global root -/
+def rootGlobal (r : Root) : Option Nat := if r ≥ 1000 then some ((r - 1000) / 3) else none
+
+/-- One package-level variable of the analysed packages and what a syntactic scan of every file of its package
+    found about it (extract/effects_pkgvars.go). -/
+structure PkgVar where
+  name : String
+  /-- index into `globalNames`; its roots are `1000 + 3*global + d` -/
+  global : Nat
+  exported : Bool
+  /-- declared with an initializer expression of its own -/
+  hasInit : Bool
+  /-- table functions (indices) whose body assigns it, op-assigns it, inc/decs it, appends to it, stores into an
+      element / field of it or through it, deletes from it, or takes its address -/
+  writers : List Nat
+  /-- which of those forms occur: "assign" | "store" | "append" | "addr" (informational) -/
+  writeKinds : List String
+  /-- one of those forms occurs in a package-level initializer -/
+  initWritten : Bool
+  /-- the extractor resolved calls of function values read from this variable to `fnValues`, relying on the
+      variable being unexported, initialised and never written -/
+  resolved : Bool
+  /-- table functions (indices) the function values held in the variable can be -/
+  fnValues : List Nat
+  deriving Repr, Inhabited
 
 end Ytk.EffectT
